@@ -73,6 +73,8 @@ def main(argv):
         print("replay does not violate the property on the current tree")
         return 0
     tier = argv[1]
+    if tier == "thorough":
+        os.environ.setdefault("VF_SOLVER_TIMEOUT_MS", "30000")   # per-query budget (one 9x retry on unknown)
     if tier not in ("quick", "thorough"):
         print(__doc__)
         return 2
